@@ -34,5 +34,7 @@ def main():
                 print("%-14s %s %-16s %s" % (n, p, kind, detail[:150]), flush=True)
         finally:
             subprocess.run(["git", "-C", "/repo", "checkout", "--", "."], check=True)
+            # the checks rewrite evidence/<id>.json on every run: put back the committed (unchanged-tree) evidence
+            subprocess.run(["git", "-C", ROOT, "checkout", "--", "evidence"], check=False)
         json.dump(results, open(resp, "w"), indent=1, sort_keys=True)
 main()
